@@ -138,6 +138,24 @@ theorem stopsM_tablerowCols (P : Prims) (tr : Bool) (cols : Option Expr) (loc : 
     cases cv <;> exact stopsM_pure _
   · exact stopsM_pure _
 
+theorem stopsM_loopRun (P : Prims) (path : Bytes) (loc : Loc) (tr : Bool) (var : Bytes) (e : Expr) (mods : LoopMods)
+    {bodyM : M Status} (hb : StopsM bodyM) (tooMany : Bool) (elseM : Option (M Status))
+    (he : ∀ m, elseM = some m → StopsM m) :
+    StopsM (loopRun P path loc tr var e mods bodyM tooMany elseM) := by
+  unfold loopRun
+  refine stopsM_wrapAt _ _ (stopsM_bind stopsM_getEnv (fun env => stopsM_bind (stopsM_ofRes _) (fun v =>
+    stopsM_bind (stopsM_ofRes _) (fun items0 => stopsM_bind (stopsM_intModifier _ _ _) (fun off =>
+    stopsM_bind (stopsM_intModifier _ _ _) (fun lim => ?_))))))
+  split
+  · exact stopsM_fail _
+  · unfold loopDispatch
+    split
+    · next els => exact he _ rfl
+    · unfold loopIterate
+      exact stopsM_bind (stopsM_tablerowCols _ _ _ _) (fun cols => stopsM_bind (stopsM_getVar _) (fun pl =>
+        stopsM_bind (stopsM_getVar _) (fun pv => stopsM_bind (stopsM_iterate _ _ _ hb _ _ _ _) (fun st =>
+        stopsM_bind (stopsM_restore _ _ _) (fun _ => stopsM_pure _)))))
+
 /-- the include handler makes no call on the caller's writer (it renders into a buffer) -/
 def IncOk (c : RCtx) : Prop := ∀ line f env, Stops (c.inc line f env)
 
@@ -182,17 +200,13 @@ theorem stops_renderNode (c : RCtx) (hc : IncOk c) : ∀ n : Node, StopsM (rende
       (fun sel => stops_renderCases c hc sel cases)))
   | .loop line tablerow var e mods body clauses => by
     unfold renderNode
-    refine stopsM_wrapAt _ _ (stopsM_bind stopsM_getEnv (fun env => stopsM_bind (stopsM_ofRes _) (fun v =>
-      stopsM_bind (stopsM_ofRes _) (fun items0 => stopsM_bind (stopsM_intModifier _ _ _) (fun off =>
-      stopsM_bind (stopsM_intModifier _ _ _) (fun lim => ?_))))))
+    simp only
     split
-    · exact stopsM_fail _
-    · dsimp only
-      split
-      · exact stops_renderBlockBody c hc _
-      · exact stopsM_bind (stopsM_tablerowCols _ _ _ _) (fun cols => stopsM_bind (stopsM_getVar _) (fun pl => stopsM_bind (stopsM_getVar _) (fun pv =>
-          stopsM_bind (stopsM_iterate _ _ _ (stops_renderBlockBody c hc body) _ _ _ _) (fun st =>
-          stopsM_bind (stopsM_restore _ _ _) (fun _ => stopsM_pure _)))))
+    · exact stopsM_loopRun _ _ _ _ _ _ _ (stops_renderBlockBody c hc body) _ none (fun _ h => by cases h)
+    · next els =>
+      exact stopsM_loopRun _ _ _ _ _ _ _ (stops_renderBlockBody c hc body) _ (some _)
+        (fun m h => by cases h; exact stops_renderBlockBody c hc els)
+    · exact stopsM_loopRun _ _ _ _ _ _ _ (stops_renderBlockBody c hc body) _ none (fun _ h => by cases h)
   | .cycle line group values => by
     unfold renderNode
     refine stopsM_wrapFailAt _ _ (stopsM_bind (stopsM_getVar _) (fun lv => ?_))
